@@ -20,7 +20,7 @@ func init() {
 			"(P04-steps) the step closures call AppendEntry / StartOpenRange / CloseOpenRange / AppendPause / ExtendPause with the command's own entry, time and summary, and switch closes and starts with one and the same time value; " +
 			"(P04-pause-arith) the pause loop extends by exactly minus the not-yet-captured whole minutes since the start and accounts for them; (P04-reject) the reconciler steps reject (second open range, nothing to close/pause) before modifying any line. " +
 			"Not covered: the records obtained by re-reading after a history (needs an abstract model evaluated on inputs), --resume selection, chronological placement arithmetic.",
-		rules: []ruleFn{ruleP04Creators, ruleP17StopFallback, ruleP04Steps, ruleP04PauseArith, ruleP04Reject, ruleP04ResumePrevious, ruleP04Resume, ruleP04PauseToken},
+		rules: []ruleFn{ruleP04Creators, ruleP17StopFallback, ruleP17ErrAbort, ruleP04Steps, ruleP04PauseArith, ruleP04Reject, ruleP04ResumePrevious, ruleP04Resume, ruleP04PauseToken},
 		trusted: []string{"ApplyReconciler takes the first creator that yields a reconciler (P05-apply-abort checks the loop's abort discipline)"},
 	})
 }
@@ -274,8 +274,11 @@ func (p *Prog) creatorsRule(r *Report, only ...string) {
 			default:
 				okc := len(alts) == 1 && alts[0].kind == ex.kind
 				detail := ""
+				var bv ssa.Value
 				if okc {
-					b, bv, k := p.dateDesc(alts[0].date)
+					var b string
+					var k int64
+					b, bv, k = p.dateDesc(alts[0].date)
 					if i == 0 || base0 == nil {
 						base0 = bv
 					}
@@ -285,6 +288,13 @@ func (p *Prog) creatorsRule(r *Report, only ...string) {
 					detail = alts[0].kind
 				}
 				r.check(okc, rule, key, p.instrPos(rc.call), fmt.Sprintf("%s at %s%+d", ex.kind, ex.base, ex.k), fmt.Sprintf("creator #%d of %s is %s, its definition needs %s(%s%+d) on the same date value", i, name, detail, ex.kind, ex.base, ex.k))
+				if okc && name == "Pause" && i == 0 {
+					// pause keeps writing for as long as it runs: the day it works on is fixed when
+					// the command starts, not re-read from the clock at every write
+					if bc, isCall := bv.(*ssa.Call); isCall {
+						r.check(bc.Parent() == run, rule, "Pause:date-once", p.instrPos(bc), "the target date is read from the clock once, when the command starts", "the target date of pause is re-read from the clock inside a closure that runs at every periodic write: after midnight a different record is selected")
+					}
+				}
 				if okc && ex.kind == "ForNewRecord" {
 					p.checkShouldTotalSource(r, rule, name, run, alts[0].where.(ssa.CallInstruction))
 				}
